@@ -369,7 +369,11 @@ __dnf(dexpr_t root)
 		__dnf(root->right);
 
 		/* upon ascent fixup double OR's */
-		if (root->left->type == DEX_DISJ &&
+		if (root->type != DEX_DISJ) {
+			/* a conjunction whose children have only just
+			 * become disjunctions, mustn't rotate those */
+			;
+		} else if (root->left->type == DEX_DISJ &&
 		    root->right->type == DEX_DISJ) {
 			/*      |             |
 			 *    /   \          / \
